@@ -142,6 +142,9 @@ type Case struct {
 	Settings Settings        `json:"settings"`
 	Events   []Ev            `json:"events"`
 	Recycle  bool            `json:"recycle,omitempty"` // return each finished event's memory at once (like the event pool) instead of at the end
+	// StopBusy (pipeline replay only): the pipeline is stopped right after the last event, without waiting for
+	// the stream time-out that would flush an action in the middle of a sequence
+	StopBusy bool `json:"stop_busy,omitempty"`
 }
 
 // ---------------------------------------------------------------- k8s meta (precondition of k8s-multiline)
